@@ -1,1 +1,295 @@
--- property theorems of C01 (not built yet)
+/-
+  C01 — the transmission spectrum equals the documented transit-depth integral.
+  All statements are about `Taurex.Transmission` (the definitions `driver_c01` executes on Float) at the carrier ℝ.
+  Hypotheses: `Shells` (the altitude grid built by `calculate_scale_properties`: C11), non-negative densities and
+  prepared opacities (`Contrib.Nonneg`), `0 < rs`.  `Real.sqrt`/division totalisations are guarded:
+  `chord*_radicand_nonneg` show no negative radicand occurs, `0 < rs` is a hypothesis wherever `/ rs^2` matters.
+-/
+import Proofs.C01c
+
+open Finset
+
+namespace Taurex.C01
+open Taurex.Transmission
+
+/-! ### the depth integral between the bare planet and the opaque atmosphere -/
+
+/-- never below the bare-planet value `(Rp/Rs)^2` -/
+theorem depth_ge_bare (rp rs : ℝ) (hrs : 0 < rs) (n : ℕ) (z dz tau : ℕ → ℝ)
+    (hz : ∀ l < n, 0 ≤ rp + z l) (hdz : ∀ l < n, 0 ≤ dz l) (ht : ∀ l < n, 0 ≤ tau l) :
+    rp ^ 2 / rs ^ 2 ≤ depth rp rs n z dz (fun l => Transmission.trans (tau l)) := by
+  have e : depth rp rs n z dz (fun _ => 1) = rp ^ 2 / rs ^ 2 := by rw [depth_eq]; simp
+  rw [← e]
+  exact depth_mono_tr rp rs hrs n z dz _ _ hz hdz (fun l hl => trans_le_one _ (ht l hl))
+
+example : (1 : ℝ) ^ 2 / 2 ^ 2 ≤ depth 1 2 3 (fun l => (l : ℝ)) (fun _ => 1)
+    (fun l => Transmission.trans (if l = 0 then (20 : ℝ) else 0)) :=
+  depth_ge_bare 1 2 (by norm_num) 3 _ _ (fun l => if l = 0 then (20 : ℝ) else 0) (fun l _ => by positivity)
+    (fun l _ => by norm_num) (fun l _ => by split <;> norm_num)
+
+/-- never above the value for an atmosphere opaque to its top -/
+theorem depth_le_opaque (rp rs : ℝ) (hrs : 0 < rs) (n : ℕ) (z dz tau : ℕ → ℝ)
+    (hz : ∀ l < n, 0 ≤ rp + z l) (hdz : ∀ l < n, 0 ≤ dz l) :
+    depth rp rs n z dz (fun l => Transmission.trans (tau l)) ≤ (rp ^ 2 + ∑ l ∈ range n, 2 * (rp + z l) * dz l) / rs ^ 2 := by
+  have e : depth rp rs n z dz (fun _ => 0) = (rp ^ 2 + ∑ l ∈ range n, 2 * (rp + z l) * dz l) / rs ^ 2 := by
+    rw [depth_eq]; simp
+  rw [← e]
+  exact depth_mono_tr rp rs hrs n z dz _ _ hz hdz (fun l _ => (trans_pos _).le)
+
+example : depth 1 2 3 (fun l => (l : ℝ)) (fun _ => 1) (fun l => Transmission.trans (if l = 0 then (20 : ℝ) else 0))
+    ≤ ((1 : ℝ) ^ 2 + ∑ l ∈ range 3, 2 * (1 + (l : ℝ)) * 1) / 2 ^ 2 :=
+  depth_le_opaque 1 2 (by norm_num) 3 _ _ (fun l => if l = 0 then (20 : ℝ) else 0) (fun l _ => by positivity)
+    (fun l _ => by norm_num)
+
+/-- the opaque annulus is inside the disc of the top of the atmosphere -/
+theorem opaque_le_disc (rp : ℝ) (n : ℕ) (zb z dz : ℕ → ℝ) (S : Shells rp n zb z dz) :
+    ∑ l ∈ range n, 2 * (rp + z l) * dz l ≤ (rp + zb n) ^ 2 - (rp + zb 0) ^ 2 := by
+  have key : ∀ m ≤ n, ∑ l ∈ range m, 2 * (rp + z l) * dz l ≤ (rp + zb m) ^ 2 - (rp + zb 0) ^ 2 := by
+    intro m hm
+    induction m with
+    | zero => simp
+    | succ m ih =>
+      rw [Finset.sum_range_succ]
+      have h1 := ih (by omega)
+      have h2 := S.step m (by omega); have h3 := S.hz m (by omega); have h4 := S.thick m (by omega)
+      rw [h2, h3]; nlinarith
+  exact key n (le_refl _)
+
+example : Shells (1 : ℝ) 3 (fun l => (l : ℝ)) (fun l => (l : ℝ)) (fun _ => 1) :=
+  ⟨by norm_num, fun _ _ => rfl, fun l _ => by push_cast; ring, fun _ _ => by norm_num⟩
+
+/-- the depth never decreases when optical depths grow -/
+theorem depth_mono_tau (rp rs : ℝ) (hrs : 0 < rs) (n : ℕ) (z dz tau tau' : ℕ → ℝ)
+    (hz : ∀ l < n, 0 ≤ rp + z l) (hdz : ∀ l < n, 0 ≤ dz l) (h : ∀ l < n, tau l ≤ tau' l) :
+    depth rp rs n z dz (fun l => Transmission.trans (tau l)) ≤ depth rp rs n z dz (fun l => Transmission.trans (tau' l)) :=
+  depth_mono_tr rp rs hrs n z dz _ _ hz hdz (fun l hl => trans_anti (h l hl))
+
+example : depth 1 2 3 (fun l => (l : ℝ)) (fun _ => 1) (fun l => Transmission.trans (l : ℝ))
+    ≤ depth 1 2 3 (fun l => (l : ℝ)) (fun _ => 1) (fun l => Transmission.trans (2 * (l : ℝ))) :=
+  depth_mono_tau 1 2 (by norm_num) 3 _ _ (fun l => (l : ℝ)) (fun l => 2 * (l : ℝ)) (fun l _ => by positivity)
+    (fun l _ => by norm_num)
+    (fun l _ => by have : (0 : ℝ) ≤ l := by positivity
+                   linarith)
+
+/-! ### slant optical depth -/
+
+/-- optical depths are non-negative (with and without the early exit) -/
+theorem tau_nonneg (n nwn : ℕ) (path dens : ℕ → ℝ) (l : ℕ) (hp : ∀ k < n - l, 0 ≤ path k)
+    (hd : ∀ j < n, 0 ≤ dens j) (cs : List (Contrib ℝ)) (hcs : ∀ c ∈ cs, c.Nonneg) (wn : ℕ) :
+    0 ≤ tauFull n path dens l cs wn ∧ 0 ≤ tauCut n nwn path dens l cs wn :=
+  ⟨tauFullFrom_ge n path dens l hp hd cs hcs (fun _ => 0) wn,
+   tauCutFrom_ge n nwn path dens l hp hd cs hcs (fun _ => 0) wn⟩
+
+/-- pointwise larger opacities (same kernels, same order) give pointwise larger optical depths -/
+theorem tau_mono_sigma (n : ℕ) (path dens : ℕ → ℝ) (l : ℕ) (hp : ∀ k < n - l, 0 ≤ path k)
+    (hd : ∀ j < n, 0 ≤ dens j) (cs cs' : List (Contrib ℝ)) (h : List.Forall₂ Contrib.Le cs cs') (wn : ℕ) :
+    tauFull n path dens l cs wn ≤ tauFull n path dens l cs' wn :=
+  tauFullFrom_mono n path dens l hp hd cs cs' h (fun _ => le_refl _) wn
+
+/-- the two-layer, two-wavenumber, two-contribution instance used by the non-vacuity examples below:
+    an absorber (kind `lin`) and a CIA-like term (kind `sq`), one saturated and one clear column -/
+def nvContribs : List (Contrib ℝ) :=
+  [{ kind := .lin, sigma := fun _ wn => if wn = 0 then 20 else 0 }, { kind := .sq, sigma := fun _ _ => 1 }]
+
+theorem nvContribs_nonneg : ∀ c ∈ nvContribs, c.Nonneg := by
+  intro c hc
+  simp only [nvContribs, List.mem_cons, List.not_mem_nil, or_false] at hc
+  rcases hc with rfl | rfl <;> intro l wn <;> simp only <;> [split <;> norm_num; norm_num]
+
+example : 0 ≤ tauFull 2 (fun _ => 1) (fun _ => 1) 0 nvContribs 0 ∧ 0 ≤ tauCut 2 2 (fun _ => 1) (fun _ => 1) 0 nvContribs 0 :=
+  tau_nonneg 2 2 _ _ 0 (fun _ _ => by norm_num) (fun _ _ => by norm_num) nvContribs nvContribs_nonneg 0
+
+example : tauFull 2 (fun _ => 1) (fun _ => 1) 0 nvContribs 0
+    ≤ tauFull 2 (fun _ => 1) (fun _ => 1) 0 (nvContribs.map (Contrib.scale 3)) 0 :=
+  tau_mono_sigma 2 _ _ 0 (fun _ _ => by norm_num) (fun _ _ => by norm_num) _ _
+    (scale_le 3 (by norm_num) _ nvContribs_nonneg) 0
+
+/-- **the licensed deviation**: the loop with the `tau[layer].min() > 10` exit never exceeds the full sum, and
+    either equals it at every wavenumber or is already above 10 at every wavenumber of the row -/
+theorem cutoff_licensed (n nwn : ℕ) (path dens : ℕ → ℝ) (l : ℕ) (hp : ∀ k < n - l, 0 ≤ path k)
+    (hd : ∀ j < n, 0 ≤ dens j) (cs : List (Contrib ℝ)) (hcs : ∀ c ∈ cs, c.Nonneg) :
+    (∀ wn, tauCut n nwn path dens l cs wn ≤ tauFull n path dens l cs wn) ∧
+    ((∀ wn, tauCut n nwn path dens l cs wn = tauFull n path dens l cs wn) ∨
+      (∀ wn < nwn, 10 < tauCut n nwn path dens l cs wn)) :=
+  cutoff_from n nwn path dens l hp hd cs hcs (fun _ => 0)
+
+example := cutoff_licensed 2 2 (fun _ => (1 : ℝ)) (fun _ => (1 : ℝ)) 0 (fun _ _ => by norm_num) (fun _ _ => by norm_num)
+  nvContribs nvContribs_nonneg
+
+/-! ### the whole model: `modelTrans` / `modelDepth` (= `TransmissionModel.path_integral`) -/
+
+section model
+variable (newMethod : Bool) (rp rs : ℝ) (n nwn : ℕ) (zb z dz dens : ℕ → ℝ)
+
+variable {newMethod rp rs n nwn zb z dz dens}
+
+/-- with or without the early exit, the model depth lies between the bare planet and the opaque atmosphere -/
+theorem model_depth_bounds {cs : List (Contrib ℝ)} (W : WellFormed newMethod rp rs n zb z dz dens cs)
+    (cut : Bool) (wn : ℕ) :
+    rp ^ 2 / rs ^ 2 ≤ modelDepth cut newMethod rp rs n nwn zb z dz dens cs wn ∧
+    modelDepth cut newMethod rp rs n nwn zb z dz dens cs wn
+      ≤ (rp ^ 2 + ∑ l ∈ range n, 2 * (rp + z l) * dz l) / rs ^ 2 := by
+  unfold modelDepth modelTrans
+  constructor
+  · apply depth_ge_bare rp rs W.rs_pos n z dz _ (fun l hl => W.shells.z_radius_nonneg l hl) W.shells.thick
+    intro l hl
+    have := tau_nonneg n nwn (chord newMethod rp zb z dz l) dens l (W.path_nonneg l hl) W.dens_nonneg cs
+      W.sigma_nonneg wn
+    cases cut <;> simp [this.1, this.2]
+  · exact depth_le_opaque rp rs W.rs_pos n z dz _ (fun l hl => W.shells.z_radius_nonneg l hl) W.shells.thick
+
+/-- nothing absorbs ⇒ every transmittance is 1 and the depth is exactly the bare-planet value -/
+theorem depth_transparent (cs : List (Contrib ℝ)) (h0 : ∀ c ∈ cs, ∀ l wn, c.sigma l wn = 0) (cut : Bool) (wn : ℕ) :
+    (∀ l, modelTrans cut newMethod rp n nwn zb z dz dens cs l wn = 1) ∧
+    modelDepth cut newMethod rp rs n nwn zb z dz dens cs wn = rp ^ 2 / rs ^ 2 := by
+  have ht : ∀ l, modelTrans cut newMethod rp n nwn zb z dz dens cs l wn = 1 := by
+    intro l
+    simp only [modelTrans, tauCut, tauFull]
+    rw [tauCutFrom_zero _ _ _ _ _ cs h0, tauFullFrom_zero _ _ _ _ cs h0]
+    cases cut <;> simp [Transmission.trans]
+  refine ⟨ht, ?_⟩
+  unfold modelDepth
+  simp only [ht]
+  rw [depth_eq]; simp
+
+/-- scaling every opacity by `s ≥ 1` never decreases the documented (uncut) depth -/
+theorem depth_mono_scale {cs : List (Contrib ℝ)} (W : WellFormed newMethod rp rs n zb z dz dens cs)
+    (s : ℝ) (hs : 1 ≤ s) (wn : ℕ) :
+    modelDepth false newMethod rp rs n nwn zb z dz dens cs wn
+      ≤ modelDepth false newMethod rp rs n nwn zb z dz dens (cs.map (Contrib.scale s)) wn := by
+  unfold modelDepth modelTrans
+  simp only [Bool.false_eq_true, if_false]
+  apply depth_mono_tau rp rs W.rs_pos n z dz _ _ (fun l hl => W.shells.z_radius_nonneg l hl) W.shells.thick
+  intro l hl
+  exact tau_mono_sigma n _ dens l (W.path_nonneg l hl) W.dens_nonneg cs _ (scale_le s hs cs W.sigma_nonneg) wn
+
+/-- what "to within that cut-off" means: the returned depth (early exit) is never above the documented integral
+    and falls short of it by at most `exp(-10)` times the opaque annulus -/
+theorem depth_cut_within {cs : List (Contrib ℝ)} (W : WellFormed newMethod rp rs n zb z dz dens cs)
+    (wn : ℕ) (hwn : wn < nwn) :
+    0 ≤ modelDepth false newMethod rp rs n nwn zb z dz dens cs wn
+          - modelDepth true newMethod rp rs n nwn zb z dz dens cs wn ∧
+    modelDepth false newMethod rp rs n nwn zb z dz dens cs wn
+          - modelDepth true newMethod rp rs n nwn zb z dz dens cs wn
+      ≤ Transmission.trans 10 * (∑ l ∈ range n, 2 * (rp + z l) * dz l) / rs ^ 2 := by
+  unfold modelDepth modelTrans
+  simp only [Bool.false_eq_true, if_false, if_true]
+  apply depth_band rp rs W.rs_pos n z dz _ _ (trans 10) (fun l hl => W.shells.z_radius_nonneg l hl) W.shells.thick
+  · intro l hl
+    exact (trans_cut_band n nwn _ dens l (W.path_nonneg l hl) W.dens_nonneg cs W.sigma_nonneg wn hwn).1
+  · intro l hl
+    exact (trans_cut_band n nwn _ dens l (W.path_nonneg l hl) W.dens_nonneg cs W.sigma_nonneg wn hwn).2
+
+/-- scaling monotonicity of the *returned* depth, to within the cut-off -/
+theorem depth_cut_mono_scale_within {cs : List (Contrib ℝ)} (W : WellFormed newMethod rp rs n zb z dz dens cs)
+    (s : ℝ) (hs : 1 ≤ s) (wn : ℕ) (hwn : wn < nwn) :
+    modelDepth true newMethod rp rs n nwn zb z dz dens cs wn
+      ≤ modelDepth true newMethod rp rs n nwn zb z dz dens (cs.map (Contrib.scale s)) wn
+        + Transmission.trans 10 * (∑ l ∈ range n, 2 * (rp + z l) * dz l) / rs ^ 2 := by
+  have W' : WellFormed newMethod rp rs n zb z dz dens (cs.map (Contrib.scale s)) :=
+    ⟨W.rs_pos, W.shells, W.path_nonneg, W.dens_nonneg, scale_nonneg s (by linarith) cs W.sigma_nonneg⟩
+  have h1 := depth_cut_within (nwn := nwn) W wn hwn
+  have h2 := depth_cut_within (nwn := nwn) W' wn hwn
+  have h3 := depth_mono_scale (nwn := nwn) W s hs wn
+  linarith
+
+end model
+
+/-! ### chord lengths through the spherical shells (what `compute_path_length_3d` must return) -/
+
+/-- old method: no negative radicand, every segment non-negative, segments sum to the half-chord × 2 -/
+theorem chordOld_radicand_nonneg (rp : ℝ) (n : ℕ) (zb z dz : ℕ → ℝ) (S : Shells rp n zb z dz) (l j : ℕ)
+    (hlj : l ≤ j) (hj : j < n) : 0 ≤ Transmission.sq (oldMid rp z dz j) - oldP rp z dz l := by
+  have hl : l < n := by omega
+  have hmid : ∀ i, l ≤ i → i < n → oldMid rp z dz l ≤ oldMid rp z dz i := by
+    intro i hli hi
+    induction i with
+    | zero => have : l = 0 := by omega
+              subst this; exact le_refl _
+    | succ i ih =>
+      rcases Nat.eq_or_lt_of_le hli with h | h
+      · rw [← h]
+      · exact le_trans (ih (by omega) (by omega)) (oldMid_step S i hi)
+  have h1 := hmid j hlj hj
+  have h0 : 0 < n := by omega
+  have h2 : 0 ≤ rp + dz 0 / 2 + z l := by
+    have := S.z_radius_nonneg l hl; have := S.thick 0 h0; linarith
+  have h3 : rp + dz 0 / 2 + z l ≤ oldMid rp z dz l := by
+    unfold oldMid; have := S.thick l hl; linarith
+  unfold oldP Transmission.sq
+  nlinarith
+
+theorem chordOld_nonneg (rp : ℝ) (n : ℕ) (zb z dz : ℕ → ℝ) (S : Shells rp n zb z dz) (l k : ℕ) (hl : l < n)
+    (hk : k < n - l) : 0 ≤ chordOld rp z dz l k := by
+  unfold chordOld
+  split
+  · have : 0 ≤ oldHalf rp z dz l l := by unfold oldHalf; simp only [sqrt_real]; exact Real.sqrt_nonneg _
+    linarith
+  · rename_i hk0
+    have e : l + k = (l + k - 1) + 1 := by omega
+    have h1 := oldMid_step S (l + k - 1) (by omega)
+    rw [← e] at h1
+    have := oldHalf_mono rp z dz l (l + k - 1) (l + k) (oldMid_nonneg S _ (by omega)) h1
+    linarith
+
+theorem chordOld_sum (rp : ℝ) (n : ℕ) (z dz : ℕ → ℝ) (l : ℕ) (hl : l < n) :
+    ∑ k ∈ range (n - l), chordOld rp z dz l k = 2 * oldHalf rp z dz l (n - 1) := by
+  have e : n - l = (n - l - 1) + 1 := by omega
+  rw [e, sum_chordOld]
+  congr 2; omega
+
+/-- new method: no negative radicand, every segment non-negative, segments sum to the full chord
+    `2·sqrt((Rp + z_top)^2 - b_l^2)` -/
+theorem chordNew_radicand_nonneg (rp : ℝ) (n : ℕ) (zb z dz : ℕ → ℝ) (S : Shells rp n zb z dz) (l i : ℕ)
+    (hl : l < n) (hli : l + 1 ≤ i) (hi : i ≤ n) : 0 ≤ Transmission.sq (rp + zb i) - Transmission.sq (newB rp z dz l) := by
+  have h1 := S.zb_mono (l + 1) i hli hi
+  have h2 := S.step l hl; have h3 := S.hz l hl; have h4 := S.thick l hl
+  have h5 := S.radius_nonneg l hl.le
+  unfold newB Transmission.sq
+  rw [h3]
+  nlinarith
+
+theorem chordNew_nonneg (rp : ℝ) (n : ℕ) (zb z dz : ℕ → ℝ) (S : Shells rp n zb z dz) (l k : ℕ) (hl : l < n)
+    (hk : k < n - l) : 0 ≤ chordNew rp zb z dz l k := by
+  unfold chordNew
+  split
+  · unfold newD; simp only [sqrt_real]
+    have := Real.sqrt_nonneg (Transmission.sq (rp + zb (l + 1)) - Transmission.sq (newB rp z dz l)); linarith
+  · have h1 := S.step (l + k) (by omega); have h2 := S.thick (l + k) (by omega)
+    have e : l + 1 + k = l + k + 1 := by omega
+    have := newD_mono rp zb z dz l (l + k) (l + 1 + k) (S.radius_nonneg _ (by omega)) (by rw [e, h1]; linarith)
+    linarith
+
+theorem chordNew_sum (rp : ℝ) (n : ℕ) (zb z dz : ℕ → ℝ) (l : ℕ) (hl : l < n) :
+    ∑ k ∈ range (n - l), chordNew rp zb z dz l k = 2 * sqrt (Transmission.sq (rp + zb n) - Transmission.sq (newB rp z dz l)) := by
+  have e : n - l = (n - l - 1) + 1 := by omega
+  rw [e, sum_chordNew]
+  have : l + 1 + (n - l - 1) = n := by omega
+  rw [this]; rfl
+
+example : 0 ≤ chordNew (1 : ℝ) (fun l => (l : ℝ)) (fun l => (l : ℝ)) (fun _ => 1) 1 1 :=
+  chordNew_nonneg 1 3 _ _ _ ⟨by norm_num, fun _ _ => rfl, fun l _ => by push_cast; ring, fun _ _ => by norm_num⟩
+    1 1 (by norm_num) (by norm_num)
+
+example : 0 ≤ chordOld (1 : ℝ) (fun l => (l : ℝ)) (fun _ => 1) 1 1 :=
+  chordOld_nonneg 1 3 (fun l => (l : ℝ)) _ _ ⟨by norm_num, fun _ _ => rfl, fun l _ => by push_cast; ring, fun _ _ => by norm_num⟩
+    1 1 (by norm_num) (by norm_num)
+
+/-- both chord methods satisfy the `path_nonneg` field of `WellFormed` on any `Shells` grid: the hypotheses of
+    the model theorems are met by a concrete two-layer atmosphere with the contributions `nvContribs` -/
+theorem wellFormed_of_shells (newMethod : Bool) (rp rs : ℝ) (hrs : 0 < rs) (n : ℕ) (zb z dz dens : ℕ → ℝ)
+    (S : Shells rp n zb z dz) (hd : ∀ j < n, 0 ≤ dens j) (cs : List (Contrib ℝ)) (hcs : ∀ c ∈ cs, c.Nonneg) :
+    WellFormed newMethod rp rs n zb z dz dens cs := by
+  refine ⟨hrs, S, ?_, hd, hcs⟩
+  intro l hl k hk
+  unfold chord
+  cases newMethod
+  · simpa using chordOld_nonneg rp n zb z dz S l k hl hk
+  · simpa using chordNew_nonneg rp n zb z dz S l k hl hk
+
+example : WellFormed true (1 : ℝ) 2 2 (fun l => (l : ℝ)) (fun l => (l : ℝ)) (fun _ => 1) (fun _ => 1) nvContribs :=
+  wellFormed_of_shells true 1 2 (by norm_num) 2 _ _ _ _
+    ⟨by norm_num, fun _ _ => rfl, fun l _ => by push_cast; ring, fun _ _ => by norm_num⟩
+    (fun _ _ => by norm_num) nvContribs nvContribs_nonneg
+
+end Taurex.C01
